@@ -123,6 +123,30 @@ func (fc *FnCtx) setEdges(b *ssa.BasicBlock) {
 
 // loop handling -------------------------------------------------------------
 
+// loopVisKey finds the visited-set key of the map iteration driving loop h.
+func (fc *FnCtx) loopVisKey(h *ssa.BasicBlock) string {
+	id := fc.loopID(h)
+	for _, b := range fc.fn.Blocks {
+		in := false
+		for _, l := range fc.loopsOf[b] {
+			if l == id {
+				in = true
+			}
+		}
+		if !in {
+			continue
+		}
+		for _, ins := range b.Instrs {
+			if nx, ok := ins.(*ssa.Next); ok {
+				if it := fc.iters[nx.Iter]; it != nil && it.isMap {
+					return it.visKey
+				}
+			}
+		}
+	}
+	return ""
+}
+
 func (fc *FnCtx) loopSpec(h *ssa.BasicBlock) *LoopSpec {
 	if fc.c == nil {
 		return nil
@@ -155,6 +179,7 @@ func (fc *FnCtx) loopHeader(h *ssa.BasicBlock, phiEntry map[*ssa.Phi]string) {
 	// 1. invariant on entry
 	if ls != nil {
 		env := fc.envAt(preState, fc.headerVars(h, phiEntry))
+		env.visKey = fc.loopVisKey(h)
 		for i, inv := range ls.Invariants {
 			t := env.boolExpr(inv.Expr)
 			fc.oblige("inv-entry", fmt.Sprintf("L%d.%d", n, i+1), h.Instrs[0].Pos(), t, inv.Src, inv.Name)
@@ -202,6 +227,7 @@ func (fc *FnCtx) loopHeader(h *ssa.BasicBlock, phiEntry map[*ssa.Phi]string) {
 	if ls != nil {
 		env := fc.envAt(fc.cur, hv)
 		env.oldState = fc.entry
+		env.visKey = fc.loopVisKey(h)
 		for _, inv := range ls.Invariants {
 			fc.assume(env.boolExpr(inv.Expr), "loop invariant "+inv.Src)
 		}
@@ -233,6 +259,7 @@ func (fc *FnCtx) loopStep(b, h *ssa.BasicBlock) {
 	}
 	if ls != nil {
 		env := fc.envAt(fc.cur, fc.headerVars(h, phiBack))
+		env.visKey = fc.loopVisKey(h)
 		for i, inv := range ls.Invariants {
 			t := env.boolExpr(inv.Expr)
 			fc.oblige("inv-step", fmt.Sprintf("L%d.%d", n, i+1), b.Instrs[len(b.Instrs)-1].Pos(), t, inv.Src, inv.Name)
